@@ -31,7 +31,7 @@ ASSUMPTIONS = ["streams start at a frame boundary and end with a sentinel frame,
                "by a frame start", "end-to-end sessions whose bytes were not all delivered before the receive timeout are "
                "counted as inconclusive sessions, never as violations"]
 REQUIRED = ["e2e_quiet_spells_between_reads", "beast_run_of_64_or_more_non_mode_s_frames", "two_clients_parsing_in_two_threads", "e2e_empty_parts_in_mid_stream", "batches_read_back_after_later_reads", "beast_single", "beast_double", "beast_random", "beast_cut_inside_escape", "beast_cut_after_frame_start",
-            "beast_rssi", "raw_single", "raw_double", "sky_single", "sky_double", "netsource", "netsource_commb_backlog_over_1000", "second_client_alive", "e2e_sessions"]
+            "beast_rssi", "raw_single", "raw_double", "sky_single", "sky_double", "netsource", "netsource_commb_backlog_over_1000", "second_client_alive", "e2e_sessions", "e2e_client_of_another_format_alive", "client_of_another_format_alive"]
 # e2e_midframe_boundary (a recv() boundary inside a frame was actually observed) is reported in the evidence but not
 # required: TCP may coalesce pieces on a loaded machine and that must not turn the verdict inconclusive
 
@@ -77,6 +77,9 @@ READERS = {"beast": "read_beast_buffer", "beast_rssi": "read_beast_buffer_rssi_p
 
 def run_seg(ctx, kind, reader, stream, cuts, exp, extra, info):
     c = new_client({"beast_rssi": "beast", "sky": "skysense"}.get(kind, kind))
+    if len(stream) % 4 == 1:
+        c_other = new_client([k for k in ("raw", "beast", "skysense") if k != {"beast_rssi": "beast", "sky": "skysense"}.get(kind, kind)][len(stream) // 4 % 2])   # noqa: F841
+        ctx.hit("client_of_another_format_alive")
     fn = getattr(c, READERS[kind])
     # a second client object of the same kind is alive and parsing another feed in between (two receivers in one program)
     c2 = new_client({"beast_rssi": "beast", "sky": "skysense"}.get(kind, kind)) if len(stream) % 3 == 0 else None
@@ -358,6 +361,12 @@ def m_e2e(ctx, case):
                 raise StopRun("sentinel")
 
     c = Client("127.0.0.1", port, {"sky": "skysense"}.get(kind, kind))
+    if len(stream) % 2 == 0:
+        # another receiver of a DIFFERENT wire format was set up in the same program after this one (one Beast and one AVR feed,
+        # say): what a client object does with its own stream is a matter of that object alone
+        other = [k for k in ("raw", "beast", "skysense") if k != {"sky": "skysense"}.get(kind, kind)][len(stream) // 2 % 2]
+        c_other = TcpClient("127.0.0.1", 1, other)   # noqa: F841  (kept alive to the end of the session)
+        ctx.hit("e2e_client_of_another_format_alive")
     err = None
     # slow delivery: the clocks a client can read (time.time / monotonic / perf_counter, looked up through the time module)
     # jump ahead by seconds, minutes or an hour between two reads - TCP promises nothing about timing, so no frame may be
